@@ -1,12 +1,16 @@
 /-
 C34 — property theorems for Condition and Event; all quantified over ALL op sequences from the initial state
 (wait with/without deadline, notify n / notify_all / set / clear, fire-next-timer, cancel, and the
-same-iteration races).  The last section proves trace refinement Model → Spec for both classes (simulation
-lemmas in RefineCond.lean / RefineEvent.lean).
+same-iteration races).  The section after that proves trace refinement Model → Spec for both classes (simulation
+lemmas in RefineCond.lean / RefineEvent.lean).  Last section (`multi_…`): histories with compound ops — several
+calls made back-to-back inside ONE loop iteration, where finished waits are still registered (`Multi.lean`,
+`MultiLemmas.lean`): the invariants and the clauses hold after every call inside an iteration, and the refinement
+extends to `run2`.
 -/
 import TornadoModel.C34.Lemmas
 import TornadoModel.C34.RefineCond
 import TornadoModel.C34.RefineEvent
+import TornadoModel.C34.MultiLemmas
 namespace TornadoModel.C34
 open TornadoModel.C33 (FState Ev Timer isPend minTimer isPend_lt)
 
@@ -426,5 +430,140 @@ example : (Event.run Event.init [.wait (some 5), .wait none, .wait (some 5), .ra
       .wait (some 9), .fire]).2.map (fun o => (o.res, o.evs))
     = [(.unit, []), (.unit, []), (.unit, []), (.unit, [(0, .timeout), (1, .result 0), (2, .timeout)]),
        (.unit, [(3, .result 0)]), (.unit, []), (.unit, []), (.fired (some 9), [(4, .timeout)])] := by decide
+
+/-! ### compound ops: several calls inside one loop iteration (`Multi.lean`)
+
+`run2` extends `run` by `multi [c₁,…,cₙ]` = `call c₁ ; … ; call cₙ ; settle` (Event: also `fireMulti`, the calls made
+from the done-callback of the wait that just timed out).  Between the calls no done-callback has run: finished waits
+are still in `Event._waiters`, their timer handles are still scheduled. -/
+
+namespace Cond
+
+abbrev after2 (t0 : Nat) (ops : List Op2) : St := (run2 (init t0) ops).1
+/-- the state after the calls `cs` of a loop iteration that starts after the history `ops` (before the drain) -/
+abbrev inside (t0 : Nat) (ops : List Op2) (cs : List Call) : St := (calls (after2 t0 ops) cs).1
+
+/-- histories of primitive ops are exactly the compound-free histories of `run2` -/
+theorem multi_extends (t0 : Nat) (ops : List Op) :
+    run2 (init t0) (ops.map .prim) = ((run (init t0) ops).1, (run (init t0) ops).2.map .prim) :=
+  run2_prim _ ops
+
+theorem multi_inv_after (t0 : Nat) (ops : List Op2) : Inv (after2 t0 ops) :=
+  (run2_inv (inv_init t0) (TInv_init t0) ops).1
+
+/-- the deque invariant also holds between the calls of one loop iteration -/
+theorem multi_inv_inside (t0 : Nat) (ops : List Op2) (cs : List Call) : Inv (inside t0 ops cs) :=
+  (calls_inv (multi_inv_after t0 ops) (TR_of_TInv (run2_inv (inv_init t0) (TInv_init t0) ops).2) cs).1
+
+/-- at any point of a loop iteration `notify n` resolves exactly the first `min n live` live waiters, in arrival
+order, with `True`; the live queue is the set of pending futures, oldest first -/
+theorem multi_notify_wakes_min (t0 : Nat) (ops : List Op2) (cs : List Call) (n : Nat) :
+    (call (inside t0 ops cs) (.notify n)).2.2 =
+        ((liveQueue (inside t0 ops cs)).take n).map (fun w => (w, FState.result 1)) ∧
+      ((liveQueue (inside t0 ops cs)).take n).length = min n (liveQueue (inside t0 ops cs)).length ∧
+      (liveQueue (inside t0 ops cs)).Pairwise (· < ·) ∧
+      ∀ w, w ∈ liveQueue (inside t0 ops cs) ↔ isPend (inside t0 ops cs).futs w = true := by
+  have h := multi_inv_inside t0 ops cs
+  refine ⟨?_, List.length_take, h.sorted.sublist List.filter_sublist, fun w => ?_⟩
+  · rw [call_notify_eq]
+    simp only [notify, liveQueue, (popN_spec _ _ n).1]
+  · simp only [liveQueue, List.mem_filter]
+    exact ⟨fun hw => hw.2, fun hw => ⟨h.pend_mem w hw, hw⟩⟩
+
+example : (call (inside 0 [.prim (.wait none), .prim (.wait none), .prim (.wait none)] [.cancel 0, .notify 1])
+    (.notify 5)).2.2 = [(2, .result 1)] := by decide
+
+/-- histories with compound ops produce the same results (per call) and the same resolutions, in the same order,
+as the sequential specification making the same calls -/
+theorem multi_refines_spec (t0 : Nat) (ops : List Op2) :
+    (run2 (init t0) ops).2.map Out2.view = (Spec.Cond.run2 Spec.Cond.init ops).2 := by
+  rw [← absF_init t0, run2_sim (inv_init t0) (TInv_init t0) ops]
+
+theorem multi_refines_spec_state (t0 : Nat) (ops : List Op2) :
+    (Spec.Cond.run2 Spec.Cond.init ops).1 = absF (after2 t0 ops) := by
+  rw [← absF_init t0, run2_sim (inv_init t0) (TInv_init t0) ops]
+
+example : (run2 (init 0) [.prim (.wait none), .prim (.wait (some 4)), .multi [.notify 1, .wait none, .cancel 1,
+      .notifyAll], .prim (.notify 1)]).2.map Out2.view
+    = [(.unit, [], []), (.unit, [], []),
+       (.unit, [.unit, .unit, .bool true, .unit], [(0, .result 1), (1, .cancelled), (2, .result 1)]),
+       (.unit, [], [])] := by decide
+
+end Cond
+
+namespace Event
+
+abbrev after2 (ops : List Op2) : St := (run2 init ops).1
+/-- the state after the calls `cs` of a loop iteration that starts after the history `ops` (before the drain);
+`fire = true`: the iteration is the one that follows the expiry of the earliest timer (`fireMulti`) -/
+abbrev inside (ops : List Op2) (fire : Bool) (cs : List Call) : St :=
+  (calls (if fire then fired (after2 ops) else after2 ops) cs).1
+
+theorem multi_extends (ops : List Op) :
+    run2 init (ops.map .prim) = ((run init ops).1, (run init ops).2.map .prim) :=
+  run2_prim _ ops
+
+theorem multi_inv_after (ops : List Op2) : Inv (after2 ops) := (run2_bd bd_init ops).inv
+
+theorem mid_inside (ops : List Op2) (fire : Bool) (cs : List Call) : Mid (inside ops fire cs) := by
+  have hb := run2_bd bd_init ops
+  cases fire with
+  | false => exact calls_mid hb.mid cs
+  | true => exact calls_mid (fired_mid hb) cs
+
+/-- at every point of a loop iteration every pending wait is registered in `_waiters`, and while the flag is set
+nobody is pending -/
+theorem multi_inv_inside (ops : List Op2) (fire : Bool) (cs : List Call) : Inv (inside ops fire cs) :=
+  (mid_inside ops fire cs).inv
+
+/-- finished waits leave no residue: after every op, compound or not, `_waiters` holds pending futures only -/
+theorem multi_no_residue (ops : List Op2) : ∀ w ∈ (after2 ops).waiters, isPend (after2 ops).futs w = true := by
+  unfold after2
+  have key : ∀ (s : St), (∀ w ∈ s.waiters, isPend s.futs w = true) →
+      ∀ w ∈ (run2 s ops).1.waiters, isPend (run2 s ops).1.futs w = true := by
+    induction ops with
+    | nil => intro s hs; exact hs
+    | cons op ops ih => intro s _; simp only [run2]; exact ih _ (step2_no_residue s op)
+  exact key init (by simp [init])
+
+/-- at any point of a loop iteration — finished waits still registered — `set()` completes every pending wait -/
+theorem multi_set_completes (ops : List Op2) (fire : Bool) (cs : List Call) (w : Nat)
+    (hp : isPend (inside ops fire cs).futs w = true) :
+    (call (inside ops fire cs) .set).1.futs[w]? = some (.result 0) :=
+  set_completes_mid (multi_inv_inside ops fire cs) w hp
+
+/-- … and no call ever touches a wait that is already finished (woken, timed out, cancelled) -/
+theorem multi_settled_final (s : St) (c : Call) (w : Nat) (f : FState) (hw : s.futs[w]? = some f)
+    (hf : f ≠ .pending) : (call s c).1.futs[w]? = some f :=
+  call_settled_final s c w f hw hf
+
+/-- `wait()` on a set event completes at once, also in the middle of an iteration -/
+theorem multi_wait_when_set (s : St) (d : Option Nat) (h : s.flag = true) :
+    (call s (.wait d)).1.futs[s.futs.length]? = some (.result 0) :=
+  wait_when_set_mid s d h
+
+-- the pulse `wait; set; clear; wait; set` inside one iteration: the second `set` meets wait 0 finished but still
+-- registered, and wakes wait 1
+example : (inside [] false [.wait none, .set, .clear, .wait none]).waiters = [0, 1] ∧
+    (call (inside [] false [.wait none, .set, .clear, .wait none]) .set).2.2 = [(1, .result 0)] := by decide
+
+/-- histories with compound ops produce the same results (per call) and the same resolutions (per op, sorted by id)
+as the sequential specification making the same calls -/
+theorem multi_refines_spec (ops : List Op2) :
+    (run2 init ops).2.map Out2.view = (Spec.Event.run2 Spec.Event.init ops).2 := by
+  rw [← absF_init, run2_sim bd_init ops]
+
+theorem multi_refines_spec_state (ops : List Op2) :
+    (Spec.Event.run2 Spec.Event.init ops).1 = absF (after2 ops) := by
+  rw [← absF_init, run2_sim bd_init ops]
+
+example : (run2 init [.prim (.wait (some 3)), .prim (.wait none), .multi [.set, .clear, .wait none, .isSet, .set],
+      .prim .clear, .prim (.wait none), .prim (.wait (some 9)), .fireMulti [.cancel 4, .wait none, .set]]).2.map Out2.view
+    = [(.unit, [], []), (.unit, [], []),
+       (.unit, [.unit, .unit, .unit, .bool false, .unit], [(0, .result 0), (1, .result 0), (2, .result 0)]),
+       (.unit, [], []), (.unit, [], []), (.unit, [], []),
+       (.fired (some 9), [.bool false, .unit, .unit], [(3, .result 0), (4, .timeout), (5, .result 0)])] := by decide
+
+end Event
 
 end TornadoModel.C34
